@@ -162,6 +162,23 @@ static bool check_zone(const zp::Zone& z, zp::Handle& h, bool in_rc, bool full, 
 }
 
 // ---- (c) cache model -----------------------------------------------------------
+// The loader's cache is process-wide state, so the loads made by earlier cases are part of every later case's
+// history.  The harness counts them; a case records that count, and a replay in a fresh process first re-creates a
+// history of the same size (names that fail to load / names that load), so that a failure that needs a long history
+// reproduces from the case alone.
+static long g_hist_failed = 0, g_hist_ok = 0;
+static void make_history(long failed, long ok, const std::string& valid_bytes) {
+  zp::MemStore& store = zp::MemStore::get();
+  static long hseq = 0; ++hseq;
+  cctz::time_zone tz;
+  for (long i = 0; i < failed; ++i) { cctz::load_time_zone("mem:c14hist-missing/" + std::to_string(hseq) + "/" + std::to_string(i), &tz); ++g_hist_failed; }
+  for (long i = 0; i < ok; ++i) {
+    const std::string name = "mem:c14hist-valid/" + std::to_string(hseq) + "/" + std::to_string(i);
+    { std::lock_guard<std::mutex> l(store.mu); store.data[name] = valid_bytes; }
+    cctz::load_time_zone(name, &tz); ++g_hist_ok;
+    { std::lock_guard<std::mutex> l(store.mu); store.data.erase(name); }
+  }
+}
 static bool cache_sequence(const std::vector<std::pair<int, int>>& cmds, const std::string& valid_bytes, std::string* why) {
   // names are made unique per sequence so that "first load" is really first
   static long seq = 0; ++seq;
@@ -187,6 +204,7 @@ static bool cache_sequence(const std::vector<std::pair<int, int>>& cmds, const s
     if (ok != expect_ok) { *why = "load_time_zone('" + name + "') returned " + (ok ? "true" : "false"); return false; }
     if (!ok && tz != cctz::utc_time_zone()) { *why = "failed load of '" + name + "' did not set the result to UTC"; return false; }
     if (!uses_source && used != 0) { *why = "data source consulted for '" + name + "'"; return false; }
+    if (!st.loaded && uses_source) { if (ok) ++g_hist_ok; else ++g_hist_failed; }
     if (st.loaded) {
       if (used != 0) { *why = "repeat load of '" + name + "' consulted the data source again (" + std::to_string(used) + " time(s))"; return false; }
       if (tz != st.tz) { *why = "repeat load of '" + name + "' returned a time_zone that is not equal to the first one"; return false; }
@@ -207,6 +225,7 @@ static bool replay(const vf::Case& c, std::string* why) {
   if (c.has("cache_cmds")) {
     std::vector<std::pair<int, int>> cmds; std::istringstream is(c.get("cache_cmds")); std::string tok;
     while (is >> tok) { size_t p = tok.find(':'); cmds.push_back({atoi(tok.substr(0, p).c_str()), atoi(tok.substr(p + 1).c_str())}); }
+    make_history((long)c.num("history_failed_names"), (long)c.num("history_loaded_names"), vf::unhex(c.get("valid_hex")));
     return cache_sequence(cmds, vf::unhex(c.get("valid_hex")), why);
   }
   zp::Zone z = zp::zone_from_label(c.get("zone"));
@@ -225,7 +244,8 @@ static void run(const vf::Args& a, vf::Evidence& ev, vf::Reporter& rep) {
             "at -1/0/+1 s, first, last, middle, a far one), separately for lookup(time_point) and lookup(civil_second); answers "
             "must equal the history-free model. (b) rapidcheck call sequences (lookup both ways, next/prev, format, parse; 10-60 "
             "calls) answered by one copy in order and by a freshly loaded copy of the same bytes in reverse order. (c) rapidcheck "
-            "load() sequences over valid/missing/garbage/fixed/UTC names with a counting data source. Non-trivial = probe in a "
+            "load() sequences over valid/missing/garbage/fixed/UTC names with a counting data source, after a process-wide "
+            "history of up to thousands of earlier loads (its size is part of the case, a replay re-creates it). Non-trivial = probe in a "
             "different interval than the priming query (stale hint), a call following another call, or a repeated load.";
   zc::Ctx c{&a, &ev, &rep};
   zc::ZoneProp p;
@@ -240,7 +260,12 @@ static void run(const vf::Args& a, vf::Evidence& ev, vf::Reporter& rep) {
     std::vector<std::pair<int, int>> cmds;
     for (int i = 0; i < n; ++i) cmds.push_back({*vf::range<int>(0, 4), *vf::range<int>(0, 3)});
     std::string text; for (auto& c : cmds) text += std::to_string(c.first) + ":" + std::to_string(c.second) + " ";
+    // one sequence in 25 is preceded by a long history of its own (hundreds to thousands of names that failed or
+    // loaded), on top of what earlier cases left in the process-wide cache
+    const int hk = *vf::range<int>(0, 24);
+    if (hk == 0) { make_history(*rc::gen::element<long>(300, 600, 1100, 5000), *rc::gen::element<long>(0, 50, 300), g_valid_bytes); EV->cls("cache_sequence_after_generated_long_history"); }
     vf::Case cc; cc.set("cache_cmds", text); cc.set("valid_hex", vf::hex(g_valid_bytes));
+    cc.set("history_failed_names", g_hist_failed); cc.set("history_loaded_names", g_hist_ok);
     vf::CurrentScope cur([&]() { return cc; });
     EV->nt(vf::fnv(text));
     EV->cls("cache_sequences");
